@@ -932,7 +932,7 @@ def str_constants_of(*functions):
 
 
 def sym_len(x):
-    if isinstance(x, (SymStr, AbsBytes)):
+    if isinstance(x, (SymStr, AbsBytes)) or hasattr(x, "sym_len"):
         return x.sym_len()
     return len(x)
 
@@ -1636,6 +1636,11 @@ class SymCtx(_Base):
         self.tier = run.tier
         self.params = run.params
         self.hash_universe = None
+        # opt-in (harness sets ``ctx.decision_memo = {}``): a condition / concretised term that
+        # was already decided on this path is answered from the path condition without
+        # solver calls and without a new trace entry (sound: the decision is in the pc)
+        self.decision_memo = None
+        self._memo_keep = []
 
     # ---- inputs ----------------------------------------------------------------------
     def _name(self, name):
@@ -1769,6 +1774,11 @@ class SymCtx(_Base):
             return True
         if z3.is_false(c):
             return False
+        memo = self.decision_memo
+        if memo is not None:
+            hit = memo.get(c.get_id())
+            if hit is not None:
+                return hit
         i = len(self.trace)
         if i < len(self.prefix):
             taken = self.prefix[i]
@@ -1789,6 +1799,12 @@ class SymCtx(_Base):
                 taken = bool(t_ok)
         self.trace.append((c, taken))
         self.solver.add(c if taken else z3.Not(c))
+        if memo is not None:
+            taken = bool(taken)
+            neg = c.arg(0) if z3.is_not(c) else z3.Not(c)
+            self._memo_keep.append(neg)      # keeps the AST (and so its id) alive
+            memo[c.get_id()] = taken
+            memo[neg.get_id()] = not taken
         return taken
 
     def concretize(self, z):
@@ -1799,6 +1815,11 @@ class SymCtx(_Base):
             return z.as_long()
         if z3.is_string_value(z):
             return z.as_string()
+        memo = self.decision_memo
+        if memo is not None:
+            hit = memo.get(("conc", z.get_id()))
+            if hit is not None:
+                return hit[0]
         self.note("concretized")
         while True:
             i = len(self.trace)
@@ -1823,6 +1844,9 @@ class SymCtx(_Base):
                 c = (z == mv)
                 self.run.cond_cache[tuple(t for _, t in self.trace)] = (c, val)
             if self.decide_raw(c):
+                if memo is not None:
+                    self._memo_keep.append(z)
+                    memo[("conc", z.get_id())] = (val,)
                 return val
 
     def decide_raw(self, c):
